@@ -187,6 +187,24 @@ Proof.
   apply value_inj; [apply W2 | apply W |]. rewrite V2, V1. ring.
 Qed.
 
+(** adding two amounts one after the other is adding their sum: the representation (not only the
+    value) is the same, so offsets accumulated step by step never drift from the offset added at once *)
+Lemma ct_add_pos_additive (c : ctQ) (t1 t2 : Q) :
+  wf c -> 0 <= t1 -> 0 <= t2 -> value c + (t1 + t2) < inject_Z (2 ^ 64) ->
+  exists c1 c2 c12, ct_add_pos c t1 = Ok c1 /\ ct_add_pos c1 t2 = Ok c2 /\ ct_add_pos c (t1 + t2) = Ok c12 /\
+                    ticks c2 = ticks c12 /\ fraction c2 == fraction c12.
+Proof.
+  intros W H1 H2 Hb.
+  assert (Hb1 : value c + t1 < inject_Z (2 ^ 64)) by lra.
+  destruct (ct_add_pos_spec c t1 W H1 Hb1) as [c1 [E1 [W1 V1]]].
+  assert (Hb2 : value c1 + t2 < inject_Z (2 ^ 64)) by (rewrite V1; lra).
+  destruct (ct_add_pos_spec c1 t2 W1 H2 Hb2) as [c2 [E2 [W2 V2]]].
+  assert (H12 : 0 <= t1 + t2) by lra.
+  destruct (ct_add_pos_spec c (t1 + t2) W H12 Hb) as [c12 [E12 [W12 V12]]].
+  exists c1, c2, c12. repeat (split; [assumption|]).
+  apply value_inj; [apply W2 | apply W12 |]. rewrite V2, V1, V12. ring.
+Qed.
+
 (** ** ordering agrees with ticks + fraction *)
 Lemma ct_cmp_spec (a b : ctQ) :
   frac_ok a -> frac_ok b -> ct_cmp a b = Some (value a ?= value b).
